@@ -184,6 +184,14 @@ def ob_aspath_after_long(a: int, b: int) -> bool:
     return roundtrip({'attr': {1: 0, 2: [(2, [a, b])], 3: '10.0.0.1'}}, asn4) and roundtrip({'attr': {2: []}}, asn4)
 
 
+def ob_rest_send(med: int, a: int, b: int, las: int, ras: int, lp: int) -> bool:
+    """an UPDATE requested through POST /v1/peer/<ip>/send/update goes out with exactly the requested attributes
+    (C16's faithful-send obligation, run here because what the agent can be *asked* to send includes the REST path)"""
+    from vf.props import C16
+    C16.P = dict(P['inner'])
+    return C16.ob_send_update(med, a, b, las, ras, lp)
+
+
 def ob_community(a: int, b: int, c: int, d: int) -> bool:
     """P: n communities; entries 0 and 1 symbolic halves (a:b, c:d), others concrete."""
     assume(0 <= a < 65536 and 0 <= b < 65536)
@@ -409,6 +417,10 @@ def obligations(tier, seed):
                           {'asn4': asn4, 'segs': [(2, 100), (1, 100)], 'sympos': [(0, 99), (1, 0)]}, cap=300))
     for asn4 in (False, True):
         out.append(ob('C06/aspath/asn4=%s/short-after-long' % asn4, 'ob_aspath_after_long', {'asn4': asn4}, covers=['long']))
+    for shape in ('announce', 'announce+lp', 'announce+withdraw', 'announce+ext'):
+        for ibgp in (True, False):
+            out.append(ob('C06/rest-send/%s/ibgp=%s' % (shape, ibgp), 'ob_rest_send', {'inner': {'shape': shape, 'ibgp': ibgp}},
+                          cap=250))
     # communities
     out.append(ob('C06/community/n=1', 'ob_community', {'n': 1}, cap=120 if quick else 300))
     dc16, dc32 = digit_classes(16), digit_classes(32)
